@@ -501,6 +501,17 @@ static bool run_case2(std::string const& op, Toks& in, Out& impl, Out& ref)
         }
         return true;
     }
+    if (op == "ymdl_bad") {
+        // month outside 1..12: the values are unspecified (no reference), but the calls must be defined
+        auto y = static_cast<int>(in.num()); auto m = static_cast<unsigned>(in.num());
+        guarded(impl, [&](Out& o) {
+            auto x = ec::year_month_day_last{ec::year{y}, ec::month_day_last{ec::month{m}}};
+            auto v = ec::year_month_day{x};
+            o.tok("ok").b(x.ok()); uo(o, x.day()); yo(o, v.year()); uo(o, v.month()); uo(o, v.day());
+            o.num(cnt(static_cast<ec::sys_days>(x))).num(cnt(static_cast<ec::local_days>(x)));
+        });
+        return true;
+    }
     if (op == "ymdl_ok") {
         auto y = static_cast<int>(in.num()); auto m = static_cast<unsigned>(in.num());
         guarded(impl, [&](Out& o) { o.tok("ok").b(ec::year_month_day_last{ec::year{y}, ec::month_day_last{ec::month{m}}}.ok()); });
